@@ -427,13 +427,15 @@ Definition on_future (g : gcfg) (s : st) (id : N) (r : fres) : st * list out :=
 (* ---- user commands ---- *)
 Inductive cmd :=
 | CFindNode | CPutRecord (qr : quorum) | CStartProviding (qr : quorum)
-| CGetRecord (qr : quorum) (local : bool) | CGetProviders
+| CGetRecord (qr : quorum) (local : bool)
+| CGetProviders (kprov : list (N * list N))      (* the providers the local store knows (store.get_providers) *)
 | CRefresh (qr : quorum).      (* MemoryStoreAction::RefreshProvider: the store republishes a local provider *)
 
 Definition LOCAL_REC : N := 77.                  (* record id of the locally stored record *)
 
-Definition lcfg (g : gcfg) (kd : V.C15.Model.kind) (needed known : N) (dists : list N) : V.C15.Model.cfg :=
-  V.C15.Model.mkCfg kd (g_k g) (g_alpha g) (g_tmo g) (g_local g) needed known []
+Definition lcfg (g : gcfg) (kd : V.C15.Model.kind) (needed known : N) (kprov : list (N * list N))
+           (dists : list N) : V.C15.Model.cfg :=
+  V.C15.Model.mkCfg kd (g_k g) (g_alpha g) (g_tmo g) (g_local g) needed known kprov
           (fun p => nth (N.to_nat p) dists (BIG + p)).
 
 Definition start_lookup (g : gcfg) (s : st) (q : N) (lk : lkind) (qr : quorum) (c : V.C15.Model.cfg)
@@ -442,17 +444,18 @@ Definition start_lookup (g : gcfg) (s : st) (q : N) (lk : lkind) (qr : quorum) (
 
 Definition on_cmd (g : gcfg) (s : st) (q : N) (c : cmd) (dists seeds : list N) : st * list out :=
   match c with
-  | CFindNode => (start_lookup g s q LFind QOne (lcfg g V.C15.Model.KFind 0 0 dists) seeds, [])
-  | CPutRecord qr => (start_lookup g s q LPut qr (lcfg g V.C15.Model.KFind 0 0 dists) seeds, [])
+  | CFindNode => (start_lookup g s q LFind QOne (lcfg g V.C15.Model.KFind 0 0 [] dists) seeds, [])
+  | CPutRecord qr => (start_lookup g s q LPut qr (lcfg g V.C15.Model.KFind 0 0 [] dists) seeds, [])
   | CStartProviding qr | CRefresh qr =>
-      (start_lookup g s q LProv qr (lcfg g V.C15.Model.KFind 0 0 dists) seeds, [])
-  | CGetProviders => (start_lookup g s q LGetProv QOne (lcfg g V.C15.Model.KProviders 0 0 dists) seeds, [])
+      (start_lookup g s q LProv qr (lcfg g V.C15.Model.KFind 0 0 [] dists) seeds, [])
+  | CGetProviders kprov =>
+      (start_lookup g s q LGetProv QOne (lcfg g V.C15.Model.KProviders 0 0 kprov dists) seeds, [])
   | CGetRecord qr local =>
       match qr, local with
       | QOne, true => (s, [OPartial q (g_local g) LOCAL_REC; OGetRecSuccess q])
       | _, _ =>
           let needed := match qr with QOne => 1 | QN n => n | QAll => g_k g end in
-          (start_lookup g s q LRec qr (lcfg g V.C15.Model.KRecord needed (if local then 1 else 0) dists) seeds,
+          (start_lookup g s q LRec qr (lcfg g V.C15.Model.KRecord needed (if local then 1 else 0) [] dists) seeds,
            if local then [OPartial q (g_local g) LOCAL_REC] else [])
       end
   end.
